@@ -44,6 +44,7 @@ std::set<uint32_t> g_states;
 std::set<uint64_t> g_transitions;
 
 extern "C" int peek_state(const void *obj, int out[4]); // peek.cc or peek_stub.cc
+extern "C" size_t peek_mutable_offset(void);
 
 int engine_qcap() { return (int)CAT_UNSOLICITED_CMD_BUFFER_SIZE; }
 bool engine_asan() { return GUARD == 0; }
@@ -991,7 +992,7 @@ void Engine::materialise()
                 if (!g_arena || need > g_arena_len)
                         ls_on = false;
                 else
-                        arena_used = pg - offsetof(struct cat_object, index) + sizeof(struct cat_object);
+                        arena_used = pg - peek_mutable_offset() + sizeof(struct cat_object);
         }
         size_t n = plan.cmds.size();
         vars.resize(n);
@@ -1100,7 +1101,7 @@ void Engine::materialise()
         if (ls_on) {
                 // object placed so that its three configuration pointers end page 0 and all mutable
                 // fields start page 1; the buffers were carved right behind it
-                size_t off = offsetof(struct cat_object, index);
+                size_t off = peek_mutable_offset();
                 objblk.base = g_arena;
                 objblk.mapped = true;
                 objblk.p = g_arena + pg - off;
